@@ -446,9 +446,11 @@ func (s *Store[H]) flushLoop(ctx context.Context) {
 	defer close(s.writesDn)
 
 	flush := func(headers []H) {
-		s.ensureInit(headers)
 		// add headers to the pending and ensure they are accessible
 		s.pending.Append(headers...)
+		// initialize the Store from the batch if needed; this publishes its height,
+		// so it must come after the headers are accessible
+		s.ensureInit(headers)
 		// always inform heightSub about new headers seen.
 		s.heightSub.Notify(getHeights(headers...)...)
 		// advance head and tail if we don't have gaps.
